@@ -1,0 +1,22 @@
+//go:build verif
+
+package verifexport
+
+import "go.minekube.com/gate/pkg/internal/tablist"
+
+// Re-exports of pkg/internal/tablist for the external verification harness (C28).
+// No logic lives here.
+
+type (
+	// TabList is tablist.InternalTabList.
+	TabList = tablist.InternalTabList
+	// TabListViewer is tablist.Viewer (the interface a recording viewer implements).
+	TabListViewer = tablist.Viewer
+	// TabListEntry is tablist.Entry, the entry implementation the proxy itself uses.
+	TabListEntry = tablist.Entry
+	// TabListEntryAttributes is tablist.EntryAttributes.
+	TabListEntryAttributes = tablist.EntryAttributes
+)
+
+// NewTabList is tablist.New: the tab list implementation for the viewer's protocol.
+func NewTabList(viewer tablist.Viewer) tablist.InternalTabList { return tablist.New(viewer) }
